@@ -41,6 +41,7 @@ func c07RegisterRules(r *Report, floors bool) {
 	r.Rule(c07N5d, "a non-constant integer divisor is provably >= 1", f(1))
 	r.Rule(c07N5iv, "the iv handed to cipher.NewCBCEncrypter/NewCBCDecrypter has a dominating len(iv) == block-size test (in the function or in every caller chain; constructor reached statically or through a function value)", f(2))
 	r.Rule(c07N5n, "every cipher.AEAD Seal/Open in scope whose nonce is caller-supplied is preceded by a length test that belongs to that AEAD: len(nonce) == aead.NonceSize() on the same value, or — for an AEAD returned by a module function together with an error — every return that can carry a nil error has established the nonce size of the constructor it used (chacha20poly1305.New 12, NewX 24, cipher.NewGCM 12), or the caller chain has", f(4))
+	r.Rule(c07N6p, "a loop that runs while its input is non-empty and replaces the input by a result of a module function fed with it: no return of that function hands the parameter back unchanged with all other results nil while every exit of the loop body is a non-nil test of those results (the loop would get the same input back forever); no floor: when the consuming function is inlined the remainder comes straight from the std-lib decoder and there is nothing to check", 0)
 	r.Rule(c07N6s, "every search loop of SpecSchedule.Next (in Next or in the functions it calls) that steps its loop-carried time by a calendar DAY (AddDate(0,0,k), time.Date(y,m,d+k,...), directly or through a helper) on a time not provably in UTC contains a progress guard: a test relating a value derived from the pre-step time to one derived from the post-step time under which the time is re-assigned from an absolute step (t.Add of a provably positive duration) or the function returns — a calendar step is re-normalised in the zone and need not advance where the zone skips a day; absolute steps need no guard; month/year-granularity calendar steps are exempt (no zone skips a month); decides the presence of the guard, not its sufficiency", f(1))
 	r.Rule(c07N6, "SpecSchedule.Next: the year limit test exists, returns, and is passed by every cycle that leaves a field-search loop; every field-search loop takes a positive constant step (Add or AddDate) on each iteration (whether a calendar day step really advances is N6-step-progress); counting loops stepped by a parameter have step >= 1; every bit-set field of SpecSchedule must be seen in some search loop (else UNDECIDED)", f(7))
 }
@@ -53,7 +54,7 @@ func checkC07(c *Ctx) {
 		"N5: make lengths and Repeat counts non-negative, non-constant divisors >= 1, CBC iv length tested. N6: the five-year bound of SpecSchedule.Next is on every cycle that leaves a field-search loop and every search loop advances t by a positive constant. " +
 		"Calls through function values (dispatch tables, func-typed fields, callbacks, method values) and module-declared interface seams are followed in both directions: their targets are in scope, and the call sites bound the targets' parameters (a bound tied to the dispatch key of a multi-target call is never claimed exact). N6 is decided over Next AND the module functions it calls: search loops may live in helpers; a give-up test is recognised in the exact form t.Year() > start+k, through a limit kept in a local/struct/AddDate form, or — form not evaluated — as a returning test inside the driving cycle that compares the time reached with a value fixed before the search; wrap-around tests are told apart because they only look at the loop-carried time. " +
 		"Every load of a variable that is written exactly once (a parameter or local captured by closures, a field of a local struct) stands for the value stored there: a guard on one load covers a use of another, inside a closure too (facts known where the closure is made). " +
-		"N6-step-progress: only t.Add of a provably positive duration counts as an advancing step; a search loop that steps by a calendar day on a zoned time must contain a test relating the pre-step to the post-step time that leads to an absolute step or a return (presence of the guard is decided, not its sufficiency — except that a guard which evaluates to false when the post-step time equals the pre-step time, the stall it exists for (t.Before(prev), t.Sub(prev) < 0), is reported; month/year calendar steps are exempt). N5-aead-nonce: a cipher.AEAD Seal/Open with a caller-supplied nonce is preceded by len(nonce) == aead.NonceSize() on the same AEAD, or the module function that returned the AEAD with an error has, on every return that can carry a nil error, established the nonce size of the constructor it used (chacha20poly1305 New 12 / NewX 24, cipher.NewGCM 12), or the caller chain has; constructors chosen through tables and paths that depend on a condition on the constructor's own arguments are unclassified. " +
+		"N6-step-progress: only t.Add of a provably positive duration counts as an advancing step; a search loop that steps by a calendar day on a zoned time must contain a test relating the pre-step to the post-step time that leads to an absolute step or a return (presence of the guard is decided, not its sufficiency — except that a guard which evaluates to false when the post-step time equals the pre-step time, the stall it exists for (t.Before(prev), t.Sub(prev) < 0), is reported; month/year calendar steps are exempt). N6-input-progress: a loop that runs while its input is non-empty and refills it from a module function does not get the very same input back on a return the loop body cannot distinguish. N5-aead-nonce: a cipher.AEAD Seal/Open with a caller-supplied nonce is preceded by len(nonce) == aead.NonceSize() on the same AEAD, or the module function that returned the AEAD with an error has, on every return that can carry a nil error, established the nonce size of the constructor it used (chacha20poly1305 New 12 / NewX 24, cipher.NewGCM 12), or the caller chain has; constructors chosen through tables and paths that depend on a condition on the constructor's own arguments are unclassified. " +
 		"Guards may sit in module helpers: a boolean helper on x / len(x) / an int (validLen(len(x))) or the ok flag of a (value, ok) helper is summarised over the helper's returns; a helper whose conditions the engine reads completely hides nothing, so a site behind it stays decidable. x%m == r moves a lower bound to the next number with that remainder; on a difference len(x)-v it is never taken as a sign test. Sizes kept in unexported fields written only by constructors with constants (tagSize) have a known finite range. " +
 		"A site the engine cannot classify (operand of unknown origin, a dominating condition it cannot interpret, variable indices) is counted in the evidence (unclassified_*) and never reported. " +
 		"NOT decided: variable-index bounds (ParseISO8601Duration's scanner, readHeader, processSegments), reflection panics (reflect.Value.Elem/Interface on invalid values), nil dereferences, panics inside third-party code (jwx, mapstructure, x509, cast, resource.ParseQuantity), panicking preconditions of AEAD/CBC primitives other than the iv length (C03 decides those by scenarios), recursion depth of config.Normalize / resolveAliasesInType, termination of loops fed by a reader that returns (0, nil) forever, integer overflow in length arithmetic, and whether Next's result is correct (C04)."
@@ -88,6 +89,7 @@ func checkC07(c *Ctx) {
 	st.checkN4()
 	st.checkN5()
 	st.checkAEADNonce()
+	st.checkInputProgress()
 	st.checkN6()
 
 	if os.Getenv("C07_DEBUG") != "" {
@@ -131,6 +133,7 @@ func checkC07(c *Ctx) {
 		fst.checkN4()
 		fst.checkN5()
 		fst.checkAEADNonce()
+		fst.checkInputProgress()
 		fst.checkStepProgressGeneric()
 	})
 }
